@@ -61,6 +61,11 @@ pub struct RunCfg {
     pub keep_digests: bool,
     /// audit: keep full Debug strings to detect 128-bit hash collisions
     pub collision_audit: bool,
+    /// keep every legitimate state in the report (E6 and other enumerators use them)
+    pub collect: bool,
+    /// write every transition / state digest of this BFS level to `dump_out` (E5 diffing)
+    pub dump_level: Option<usize>,
+    pub dump_out: Option<String>,
 }
 
 #[derive(Clone, Debug)]
@@ -101,6 +106,7 @@ pub struct Report {
     pub lockstep: u64,
     pub max_depth: usize,
     pub wall_s: f64,
+    pub collected: Vec<State>,
 }
 
 #[derive(Clone, Copy)]
@@ -125,6 +131,7 @@ struct ChunkOut {
     op_class: HashMap<(&'static str, &'static str), u64>,
     outcomes: HashMap<(&'static str, &'static str), u64>,
     digest: u64,
+    dump: Vec<(u64, u32, Op, String)>,
 }
 
 /// Plain re-execution: no model, no judges; ids tracked through `get_node_id_at` only.
@@ -243,6 +250,9 @@ pub fn explore(cfg: &RunCfg, known: &Known) -> Report {
         for f in judges::judge_state(&st, &cfg.judge, &cfg.profile, cfg.n, cfg.a, &mut ctr) {
             record(f, idx, None, &recs, &mut rep, &mut viol, &mut viol_order);
         }
+        if cfg.collect {
+            rep.collected.push(st.clone());
+        }
         frontier.push((idx, st));
         rep.states += 1;
     }
@@ -294,6 +304,9 @@ pub fn explore(cfg: &RunCfg, known: &Known) -> Report {
                             let r = step::step(s, op, &cfg.judge);
                             out.transitions += 1;
                             out.digest = out.digest.wrapping_add(r.digest);
+                            if cfg.dump_level == Some(level) {
+                                out.dump.push((r.digest, *idx, op, r.outcome.digest_form()));
+                            }
                             *out.op_class.entry((op.kind(), r.class)).or_insert(0) += 1;
                             *out.outcomes.entry((op.kind(), r.outcome.class())).or_insert(0) += 1;
                             let shaped_out = r.failures.iter().any(|f| f.shaping);
@@ -337,7 +350,12 @@ pub fn explore(cfg: &RunCfg, known: &Known) -> Report {
         let mut level_trans = 0u64;
         let mut level_digest = 0u64;
         let mut newstates: Vec<(u32, State)> = Vec::new();
+        let mut dump_lines: Vec<String> = Vec::new();
         for out in outs {
+            for (d, idx, op, oc) in &out.dump {
+                let (_, path) = path_of(&recs, *idx);
+                dump_lines.push(serde_json::json!({"kind": "transition", "digest": format!("{d:016x}"), "path": path.iter().map(|o| o.text()).collect::<Vec<_>>(), "op": op.text(), "outcome": oc}).to_string());
+            }
             level_trans += out.transitions;
             level_digest = level_digest.wrapping_add(out.digest);
             for ((k, c), v) in out.op_class {
@@ -399,8 +417,17 @@ pub fn explore(cfg: &RunCfg, known: &Known) -> Report {
                     .map(|(_, st)| obs::hash64(&(st.key, judges::rich_observation(st))))
                     .collect()
             });
-            for x in v {
-                level_obs_digest = level_obs_digest.wrapping_add(x);
+            for (x, (idx, _)) in v.iter().zip(newstates.iter()) {
+                level_obs_digest = level_obs_digest.wrapping_add(*x);
+                if cfg.dump_level == Some(level) {
+                    let (_, path) = path_of(&recs, *idx);
+                    dump_lines.push(serde_json::json!({"kind": "state-observations", "digest": format!("{x:016x}"), "path": path.iter().map(|o| o.text()).collect::<Vec<_>>()}).to_string());
+                }
+            }
+        }
+        if cfg.dump_level == Some(level) {
+            if let Some(p) = &cfg.dump_out {
+                std::fs::write(p, dump_lines.join("\n")).expect("write dump");
             }
         }
         for ((idx, st), (fails, valid, (pl, ps, ls))) in newstates.into_iter().zip(judged) {
@@ -444,6 +471,9 @@ pub fn explore(cfg: &RunCfg, known: &Known) -> Report {
             if bad {
                 rep.bad_states += 1;
             } else {
+                if cfg.collect {
+                    rep.collected.push(st.clone());
+                }
                 next_frontier.push((idx, st));
             }
         }
